@@ -33,6 +33,50 @@ void bin(sink& out, char const* opn, std::vector<LT> const& ls, std::vector<RT> 
     }
 }
 
+// compound assignment next to "binary operator, then conversion back to the left type" (both by the library; the binary
+// operator itself is judged by the ScBin events): x op= b must leave x equal to static_cast<LT>(a op b)
+template<class T>
+constexpr int exp_of()
+{
+    if constexpr (std::is_integral_v<T>) {
+        return 0;
+    } else {
+        return cnl::_impl::tag_of_t<T>::exponent;
+    }
+}
+
+template<int K, class LT, class RT>
+void assign(sink& out, char const* opn, std::vector<LT> const& ls, std::vector<RT> const& rs)
+{
+    // the conversion back to the left type shifts by the right operand's exponent (*, /) or the exponent difference (+, -, %):
+    // only pairs for which that conversion exists in the library (power_value static_asserts beyond the digits of int)
+    constexpr int er = exp_of<RT>(), el = exp_of<LT>();
+    constexpr bool convertible = (er < 0 ? -er : er) <= 16 && ((el - er) < 0 ? er - el : el - er) <= 16;
+    if constexpr (!std::is_integral_v<LT> && convertible) {      // (nested: the requires-expression below must not even be formed otherwise)
+      if constexpr (requires(LT x, RT b) { x += b; x -= b; x *= b; x /= b; x %= b; static_cast<LT>(x + b); }) {
+        int id = add_inst(out, ev("Inst").str("kind", "ScAssign").str("op", opn).raw("lt", desc<LT>()).raw("rt", desc<RT>()).raw("res_t", desc<LT>()));
+        for (auto const& a : ls) {
+            for (auto const& b : rs) {
+                if (K >= 3 && raw_is_zero(b)) {
+                    continue;
+                }
+                LT x = a, y = a;
+                auto o1 = guarded([&] {
+                    if constexpr (K == 0) { x += b; } else if constexpr (K == 1) { x -= b; } else if constexpr (K == 2) { x *= b; }
+                    else if constexpr (K == 3) { x /= b; } else { x %= b; }
+                });
+                auto o2 = guarded([&] {
+                    if constexpr (K == 0) { y = static_cast<LT>(a + b); } else if constexpr (K == 1) { y = static_cast<LT>(a - b); }
+                    else if constexpr (K == 2) { y = static_cast<LT>(a * b); } else if constexpr (K == 3) { y = static_cast<LT>(a / b); }
+                    else { y = static_cast<LT>(a % b); }
+                });
+                out.put(ev("ScAssign").num("i", id).raw("l", raw(a)).raw("r", raw(b)).raw("res", raw(x)).raw("ref", raw(y)).str("out", o1).str("refout", o2).s);
+            }
+        }
+      }
+    }
+}
+
 template<class LT>
 void neg(sink& out, std::vector<LT> const& ls)
 {
@@ -197,6 +241,11 @@ void pair_all(sink& out, int salt)
     bin<multiply_op>(out, "mul", ls, rs);
     bin<divide_op>(out, "div", ls, rs);
     bin<modulo_op>(out, "mod", ls, rs);
+    assign<0>(out, "add", ls, rs);
+    assign<1>(out, "sub", ls, rs);
+    assign<2>(out, "mul", ls, rs);
+    assign<3>(out, "div", ls, rs);
+    assign<4>(out, "mod", ls, rs);
     cmp(out, ls, rs);
     ident(out, ls, rs);
     if constexpr (QUOTIENT_OK<LT> && QUOTIENT_OK<RT>) {
